@@ -192,9 +192,11 @@ def m_int(vm, args, kw):
     if not args:
         return 0
     v = args[0]
+    if isinstance(v, SBytes) and len(args) > 1:
+        if args[1] != 16 or v.has_runs():
+            raise Unsupported('int(bytes, base) for that base')
+        return int_of_hex(vm, v.a)
     if isinstance(v, SBytes):
-        if len(args) > 1:
-            raise Unsupported('int(bytes, base)')
         if v.has_runs():
             raise Unsupported('int of bytes with runs')
         return int_of_ascii(vm, v.a, '<sym>')
@@ -253,6 +255,81 @@ def m_divmod(vm, args, kw):
     if isinstance(a, (SInt, SBool)) or isinstance(b, (SInt, SBool)):
         return int_divmod(vm, a, b)
     return divmod(a, b)
+
+
+def hex_atom_value(vm, c):
+    """Value 0..15 of one hex digit atom (forks only for an unconstrained symbolic character)."""
+    from . import models_str as ms
+    if isinstance(c, int):
+        ch = chr(c)
+        if ch not in '0123456789abcdefABCDEF':
+            raise ValueError('invalid literal for int() with base 16')
+        return int(ch, 16)
+    if c.op == 'nibchr':
+        return c.args[0]
+    if c.op in ('hexhi', 'hexlo') and c.sort != z3.BV:
+        b = c.args[0]
+        return (b / 16) if c.op == 'hexhi' else (b % 16)
+    if c.sort == z3.BV:
+        raise Unsupported('hex digit in the bit-vector domain')
+    if ms.atom_in_range(vm, c, 48, 57):
+        return c - 48
+    if ms.atom_in_range(vm, c, 97, 102):
+        return c - 87
+    if ms.atom_in_range(vm, c, 65, 70):
+        return c - 55
+    raise ValueError('invalid literal for int() with base 16')
+
+
+def int_of_hex(vm, atoms):
+    atoms = list(atoms)
+    if len(atoms) >= 2 and isinstance(atoms[0], int) and isinstance(atoms[1], int) and atoms[0] == 48 and atoms[1] in (120, 88):
+        atoms = atoms[2:]
+    if not atoms:
+        raise ValueError('invalid literal for int() with base 16')
+    # whole bytes written as hexhi/hexlo pairs combine without div/mod
+    total = z3.IntVal(0)
+    i = 0
+    while i < len(atoms):
+        a = atoms[i]
+        if i + 1 < len(atoms) and z3.is_expr(a) and z3.is_expr(atoms[i + 1]) and a.op == 'hexhi' and atoms[i + 1].op == 'hexlo' \
+                and a.args[0] is atoms[i + 1].args[0] and a.sort != z3.BV:
+            total = total * 256 + a.args[0]
+            i += 2
+        else:
+            total = total * 16 + hex_atom_value(vm, a)
+            i += 1
+    return mk_int(total)
+
+
+def hex_digits_of(vm, v, upper=False):
+    """Lowercase hex rendering of a symbolic int: forks on sign and digit count; fresh nibbles, one linear equation."""
+    e = v.e
+    key = ('hexdig', e.tid)
+    hit = vm.path_cache.get(key)
+    if hit is not None:
+        return list(hit)
+    neg = vm.truth(mk_bool(e < 0))
+    mag = -e if neg else e
+    lo, hi = vm.path_bounds(mag)
+    k = max(1, (lo.bit_length() + 3) // 4) if lo is not None and lo > 0 else 1
+    while k < 200 and not vm.truth(mk_bool(mag < 16 ** k)):
+        k += 1
+    if k >= 200:
+        raise BoundExceeded('hex rendering wider than bound')
+    if k == 1:
+        atoms = [z3.NibChar(z3.simplify(mag))]
+    else:
+        ds = []
+        for i in range(k):
+            d = vm._fresh_int('nib', 1 if i == 0 else 0, 15).e
+            z3.DEFS[d.args[0]] = (lambda model, mag=mag, sh=4 * (k - 1 - i): (z3.evaluate(mag, model) >> sh) & 15)
+            ds.append(d)
+        vm.add_pc(mag == z3.Sum([d * (16 ** (k - 1 - i)) for i, d in enumerate(ds)]))
+        atoms = [z3.NibChar(d) for d in ds]
+    out = ([45] if neg else []) + atoms
+    vm.path_cache[key] = out
+    return list(out)
 
 
 def m_bool(vm, args, kw):
@@ -490,6 +567,8 @@ def m_format_mod(vm, args, kw):
                 raise TypeError('%d format: a real number is required, not ' + type(v).__name__)
             else:
                 lit(('%d' % v).encode() if is_b else '%d' % v)
+        elif spec == 'x' and not flags and isinstance(v, SInt):
+            out.extend(hex_digits_of(vm, v))
         elif spec == 's' and not flags:
             if is_b:
                 if not isinstance(v, (bytes, bytearray, SBytes)):
@@ -627,6 +706,8 @@ def m_unhexlify(vm, args, kw):
                 if ch not in '0123456789abcdefABCDEF':
                     raise binascii.Error('Non-hexadecimal digit found')
                 nib.append(int(ch, 16))
+            elif c.op == 'nibchr':
+                nib.append(c.args[0])
             else:
                 c = ms.zt(c)
                 if ms.atom_in_range(vm, c, 48, 57):
@@ -677,6 +758,9 @@ def lm_remove(vm, o, args, kw):
 
 
 def lm_index(vm, o, args, kw):
+    from . import models_str as ms
+    if isinstance(args[0], ms.STableItem) and args[0].table is o:
+        return SInt(args[0].index)
     for i, x in enumerate(o):
         if vm.truth(vm.eq(x, args[0])):
             return i
@@ -697,8 +781,38 @@ def lm_insert(vm, o, args, kw):
     o.insert(*args)
 
 
+def const_char_table_get(vm, o, key):
+    """dict {1-char str: int} with a symbolic 1-char key: (found?, value term) without forking per entry."""
+    from . import models_str as ms
+    if not isinstance(key, ms.SStr) or len(key.a) != 1 or not o or len(o) > 4096:
+        return None
+    ks = list(o.keys())
+    if not all(isinstance(k, str) and len(k) == 1 for k in ks) or not all(isinstance(v, int) and not isinstance(v, bool) for v in o.values()):
+        return None
+    c = ms.zt(key.a[0])
+    if c.op == 'select' and all(chr(v) in o for v in c.args[1]):
+        # the key was itself read from a constant table: compose the two tables (no decision, no nested ite chains)
+        mapped = [o[chr(v)] for v in c.args[1]]
+        if mapped == list(range(len(mapped))):
+            return True, SInt(c.args[0])
+        return True, SInt(z3.Select(c.args[0], mapped))
+    found = z3.Or([c == ord(k) for k in ks])
+    if not vm.truth(mk_bool(found)):
+        return False, None
+    val = z3.IntVal(o[ks[-1]])
+    for k in reversed(ks[:-1]):
+        val = z3.If(c == ord(k), o[k], val)
+    t = SInt(val)
+    vals = list(o.values())
+    val.lo, val.hi = (min(vals), max(vals)) if val.lo is None else (val.lo, val.hi)
+    return True, t
+
+
 def dm_get(vm, o, args, kw):
     from .vm import MISSING
+    hit = const_char_table_get(vm, o, args[0])
+    if hit is not None:
+        return hit[1] if hit[0] else (args[1] if len(args) > 1 else None)
     r = vm.dict_find(o, args[0])
     if r is MISSING:
         return args[1] if len(args) > 1 else None
